@@ -13,12 +13,21 @@ const (
 	mCode    = 4
 )
 
+// nodeRecur makes single trie NODES recur (an account's storage flips between few values, A -> B -> A) while the state
+// root keeps changing through the counter account: the shared-hash protection of the waiting list is what is at stake
+var nodeRecur bool
+
 func genMutations(r *simkit.Rand, nAcc int, recurring bool) []int64 {
 	var out []int64
 	for i, n := 0, r.Range(1, 3); i < n; i++ {
 		acc := int64(r.Intn(nAcc))
 		kind := int64(r.Weighted([]int{3, 3, 6, 1, 1}))
 		arg := int64(r.Intn(64))
+		if nodeRecur && !recurring {
+			acc = int64(r.Intn(2))
+			kind = int64(r.Weighted([]int{1, 2, 8, 0, 0}))
+			arg = int64(r.Intn(2)*8 + r.Range(1, 2)) // storage key 0/1, value 1/2; balance one of four values
+		}
 		if recurring {
 			arg = int64(r.Intn(4)) // tiny value sets: states recur
 			if kind == mNonce {
@@ -34,6 +43,7 @@ const workerReadErrorArm = false
 
 func generate(r *simkit.Rand, prop, tier string) *simkit.Plan {
 	p := &simkit.Plan{Knobs: map[string]int64{}}
+	nodeRecur = false
 	nAcc := r.Range(2, 4)
 	p.Knobs["max_level"] = int64(r.Range(1, 8))
 	p.Knobs["cache"] = int64([]int{1, 2, 8, 64}[r.Intn(4)])
@@ -80,6 +90,7 @@ func generate(r *simkit.Rand, prop, tier string) *simkit.Plan {
 	if prop == "C09" && p.Arm == "monotone" && r.Chance(0.3) {
 		// C09 next to real snapshot / checkpoint workers (they block pruning and share the hashes holder with commits)
 		p.Arm = "monotone+snapshots"
+		nodeRecur = r.Chance(0.5)
 		p.Knobs["bubble"] = 1
 		p.Knobs["snapbuf"] = int64([]int{1, 2, 10}[r.Intn(3)])
 		p.Knobs["maxsnap"] = int64(r.Range(1, 3))
@@ -91,10 +102,17 @@ func generate(r *simkit.Rand, prop, tier string) *simkit.Plan {
 		// a tiny checkpoint-hashes holder: AccountsDB.Commit forces a state checkpoint of the new root whenever the
 		// holder is full; each forced checkpoint is run to completion right after the commit
 		p.Arm = "monotone+forced-checkpoints"
+		nodeRecur = r.Chance(0.7)
+		if r.Chance(0.6) {
+			p.Knobs["queue"] = 0
+		}
 		p.Knobs["bubble"], p.Knobs["drain_each"] = 1, 1
 		p.Knobs["holder"] = int64([]int{40, 100, 300, 1000, 3000}[r.Intn(5)])
 		p.Knobs["snapbuf"], p.Knobs["maxsnap"], p.Knobs["delay"] = 10, int64(r.Range(1, 3)), 0
 		w[4], w[5], w[6] = 0, 0, 0
+	}
+	if prop == "C09" && p.Arm == "monotone" && r.Chance(0.3) {
+		nodeRecur = true
 	}
 	n := r.Range(8, 60)
 	if tier == "thorough" && r.Chance(0.3) {
